@@ -88,7 +88,7 @@ def line_model_sites(ctx) -> list[dict]:
             continue
         for n in ast.walk(f.node):
             is_sl = isinstance(n, ast.Call) and call_name(n) == "splitlines" and not n.args
-            is_sn = isinstance(n, ast.Call) and call_name(n) == "split" and len(n.args) == 1 and isinstance(n.args[0], ast.Constant) and n.args[0].value == "\n"
+            is_sn = isinstance(n, ast.Call) and call_name(n) == "split" and len(n.args) >= 1 and isinstance(n.args[0], ast.Constant) and n.args[0].value == "\n"
             if not (is_sl or is_sn):
                 continue
             rec = dict(func=f.qual.replace("src.", "", 1), fq=f.qual, loc=f"{f.module.rel}:{n.lineno}", expr=norm(n), use="no positional use", indexed_by_line=False, producer=False, model="splitlines" if is_sl else "newline")
